@@ -318,7 +318,7 @@ def rule_space(ctx, rule):
     # of any kind is left raw, and nothing else is lost
     import re as _re2
     from ..microeval import run_function, module_value, call_value, Raised
-    probes = ["a b", "a%20b", "a\u00a0b", "a%C2%A0b", "%E3%80%80", "a\u3000", "a%E2%80%A8b%41", "a b%2Fc", "%20 ", "a\tb%09c", "a\nb", " a%41 ", "50%25 off", "x%E2%80%83y z"]
+    probes = ["a b", "a%20b", "a\u00a0b", "a%C2%A0b", "%E3%80%80", "a\u3000", "a%E2%80%A8b%41", "a b%2Fc", "%20 ", "a\tb%09c", "a\nb", " a%41 ", "50%25 off", "x%E2%80%83y z", "cafe%CC%81", "%E2%84%AA%41", "e\u0301%41"]
     site_u = q.site(ref.node)
     table_cells = []
     try:
